@@ -78,11 +78,34 @@ func c20Script(s *c20State, ctx context.Context, kind int) {
 			nondet.Yield()
 		})
 		<-done
+	case 7: // release, then another temporary release, both inside the temporary release
+		hctx, rel := Acquire(ctx)
+		s.enter()
+		s.leave()
+		TemporarilyRelease(hctx, func() {
+			rel()
+			TemporarilyRelease(hctx, func() { nondet.Yield() })
+		})
+		// released for good
+	case 8: // the holder's context is cancelled while it is temporarily released
+		cctx, cancel := context.WithCancel(ctx)
+		hctx, rel := Acquire(cctx)
+		s.enter()
+		s.leave()
+		TemporarilyRelease(hctx, func() {
+			nondet.Yield()
+			cancel()
+		})
+		// back from the temporary release the goroutine holds a token again
+		s.enter()
+		nondet.Yield()
+		s.leave()
+		rel()
 	}
 	s.finished++
 }
 
-const c20Kinds = 7
+const c20Kinds = 9
 
 func c20Run(g int, n int) {
 	s := &c20State{n: n}
